@@ -6,6 +6,6 @@ CONSTANTS
   QCaps = {1, 2}
   AtomicLast = TRUE
 VIEW View
-INVARIANTS NoPanic ClosedAtMostOnce NoDuplicates CloseIsLast Complete
+INVARIANTS WaitMeansDone NoPanic ClosedAtMostOnce NoDuplicates CloseIsLast Complete
 PROPERTY Termination
 CHECK_DEADLOCK TRUE
